@@ -123,6 +123,32 @@ Section Lossy.
   Qed.
 End Lossy.
 
+(* ---------- the kind-carrying loop erases to the model of record ---------- *)
+From SC Require Import Cmp.Cmp Cmp.CollLossy.
+Lemma c_forward_held_k_erase : forall (rmask : Type) (rf : rmask -> cval -> cval) cmp (ro : ropts cval rmask) evs h,
+  map fst (@c_forward_held_k rmask rf cmp ro h evs) = c_forward_held rf (Some cmp) ro h (map fst evs).
+Proof.
+  intros rmask rf cmp ro evs. induction evs as [|[e src] r IH]; intros h; [reflexivity|].
+  cbn [c_forward_held_k c_forward_held map fst].
+  destruct (include_gen false false (ro_include ro) (of_event e)) as [c|]; [|apply IH].
+  cbv zeta. destruct (held_step cmp h (cc_filter rf ro c)) as [send h'].
+  destruct send; [cbn [map fst]; f_equal|]; apply IH.
+Qed.
+Theorem pull_collection_held_k_erase : forall (rmask : Type) (rf : rmask -> cval -> cval) cmp s (ro : ropts cval rmask) evs,
+  map fst (@pull_collection_held_k rmask rf cmp s ro evs) = pull_collection_held rf (Some cmp) s ro (map fst evs).
+Proof.
+  intros. unfold pull_collection_held_k, pull_collection_held. rewrite map_app, map_map. cbn [fst]. rewrite map_id.
+  f_equal. apply c_forward_held_k_erase.
+Qed.
+Lemma merged_events_k_erase init phases : map fst (merged_events_k init phases) = merged_events init phases.
+Proof. unfold merged_events_k, merged_events. rewrite map_map. reflexivity. Qed.
+
+(* what goes out as a REPLACE: only a change the merge stage made a REPLACE of and include let through as it was;
+   and a change goes out with a type other than the one it came with only as an ADD or a REMOVE *)
+Lemma wire_kind_cases src e c :
+  wire_kind src e c = src \/ wire_kind src e c = K_ADD \/ wire_kind src e c = K_UPDATE \/ wire_kind src e c = K_REMOVE.
+Proof. unfold wire_kind. destruct (kind_eqb (cc_kind c) (ce_kind e)); [left; reflexivity|right]. destruct (cc_kind c); cbn; auto. Qed.
+
 (* the hypotheses are satisfiable: an injective naming of ALL integers *)
 From Coq Require Import Ascii.
 Local Open Scope char_scope.
